@@ -61,6 +61,8 @@ pub fn budget(prop: &str, tier: &str) -> u64 {
     let quick = match prop {
         "C06" => 40_000,
         "C17" => 40_000,
+        "C14" => 20_000,
+        "C12c" => 200_000,
         _ => 60_000,
     };
     let scale = std::env::var("VERIF_SCALE").ok().and_then(|s| s.parse::<f64>().ok()).unwrap_or(1.0);
@@ -255,8 +257,17 @@ pub fn write_evidence(prop: &str, ev: &serde_json::Value) {
 
 /// Directed scenarios + seeded search + report + evidence for one property.
 pub fn check<E: Engine>(prop: &str, tier: &str, level: &str, extra: serde_json::Value) -> i32 {
+    let (code, ev) = run_check::<E>(prop, tier, level, extra);
+    if let Some(ev) = ev {
+        write_evidence(prop, &ev);
+    }
+    code
+}
+
+/// Like `check`, but hands the evidence back instead of writing it (for checks made of sub-batches).
+pub fn run_check<E: Engine>(prop: &str, tier: &str, level: &str, extra: serde_json::Value) -> (i32, Option<serde_json::Value>) {
     let seed = seed_from_env();
-    let total = budget(prop, tier);
+    let total = budget(if E::FAMILY == "c12c" { "C12c" } else { prop }, tier);
     let known = load_known();
     let t0 = Instant::now();
 
@@ -271,7 +282,7 @@ pub fn check<E: Engine>(prop: &str, tier: &str, level: &str, extra: serde_json::
         let sim = E::run(&sc.trace, false, is_known);
         if let Some(e) = &sim.harness_error {
             eprintln!("harness error in scenario {}: {e}", sc.id);
-            return 2;
+            return (2, None);
         }
         let hit = sim.violations.iter().find(|v| v.prop == prop);
         if is_known {
@@ -297,7 +308,7 @@ pub fn check<E: Engine>(prop: &str, tier: &str, level: &str, extra: serde_json::
         for (i, e) in &batch.out.harness_errors {
             eprintln!("harness error at run {i}: {e}");
         }
-        return 2;
+        return (2, None);
     }
     for i in &batch.crashes {
         let trace = E::generate(prop, rng::run_seed(seed, prop, *i));
@@ -328,7 +339,7 @@ pub fn check<E: Engine>(prop: &str, tier: &str, level: &str, extra: serde_json::
         let path = write_replay(&r);
         if v.oracle != "process_abort" && !replay_reproduces(&path) {
             eprintln!("harness error: violation from {origin} does not reproduce from {path}");
-            return 2;
+            return (2, None);
         }
         println!("violation ({origin}, {} -> {} steps, {runs} shrink runs): {} {}: {}", E::len(trace), E::len(&min), final_v.prop, final_v.oracle, final_v.detail);
         println!("VIOLATION property={prop} replay={path}");
@@ -383,7 +394,6 @@ pub fn check<E: Engine>(prop: &str, tier: &str, level: &str, extra: serde_json::
             "seeded search samples schedules; a clean batch is evidence, not proof",
         ],
     });
-    write_evidence(prop, &ev);
     println!(
         "{prop} {tier}: {} runs in {:.1}s ({} runs/h), {} nontrivial signatures, {} violations",
         batch.out.evals,
@@ -392,7 +402,7 @@ pub fn check<E: Engine>(prop: &str, tier: &str, level: &str, extra: serde_json::
         st.nontrivial_sigs.len(),
         if exit == 0 { 0 } else { 1 }
     );
-    exit
+    (exit, Some(ev))
 }
 
 const EXPECTED_PROBES: [&str; 12] = [
